@@ -269,9 +269,15 @@ def miri_build(variant):
 
 
 def miri_run(variant, trace_path, miri_seed, rate, uninit=False):
-    d, cmd = miri_cmd(variant, ["free-replay", trace_path, "--lite"] + (["--uninit"] if uninit else []))
+    # the workload is fed on standard input: the execution is a function of (file contents, miri seed, rate, uninit)
+    # and of nothing else — in particular not of the file's name, which would change how much the program does
+    # before the workers start and thereby every later scheduling decision of the interpreter
+    d, cmd = miri_cmd(variant, ["free-replay", "-", "--lite"] + (["--uninit"] if uninit else []))
     t0 = time.time()
-    p = subprocess.run(cmd, cwd=d, env=miri_env(variant, miri_seed, rate), capture_output=True, text=True)
+    with open(trace_path, "rb") as fin:
+        p = subprocess.run(cmd, cwd=d, env=miri_env(variant, miri_seed, rate), stdin=fin, capture_output=True)
+    p.stdout = p.stdout.decode("utf-8", "replace")
+    p.stderr = p.stderr.decode("utf-8", "replace")
     j = last_json(p.stdout)
     ub = None
     if j is None:
@@ -453,7 +459,8 @@ def check(prop, tier):
                                 "--ops", "5", "--small"], capture_output=True, text=True)
             if p.returncode != 0:
                 die("gen-free failed: " + p.stderr[-800:])
-            open(tp, "w").write(p.stdout)
+            body = [l for l in p.stdout.splitlines() if l.startswith("T")]
+            write_trace(tp, trace_header("free", variant, ws, prop, prop, "threads=%d" % threads), body)
             for k in range(scheds):
                 ms = (ws * 1000 + k) % (2 ** 31)
                 # every other schedule hands the library never-initialised output buffers
@@ -526,10 +533,14 @@ def check(prop, tier):
 
     if violation[0] == "miri":
         _, variant, ws, ms, rate, hit, lines, uninit = violation
-        path = os.path.join(REPLAYS, "%s-miri-%s-w%d-s%d.trace" % (prop, variant, ws, ms))
-        hdr = trace_header("free", variant, ws, prop, prop, "miri_seed=%d preemption_rate=%s uninit=%d" % (ms, rate, 1 if uninit else 0))
-        lines = minimise_free(variant, hdr, lines, prop, ms, rate, known, uninit=uninit)
-        write_trace(path, hdr, lines)
+        hdr = trace_header("free", variant, ws, prop, prop, "threads=%d" % len({l.split()[0] for l in lines}))
+        path = os.path.join(REPLAYS, "%s-miri-%s-w%d-s%d-r%s-u%d.trace" % (prop, variant, ws, ms, rate, 1 if uninit else 0))
+        small = minimise_free(variant, hdr, lines, prop, ms, rate, known, uninit=uninit)
+        write_trace(path, hdr, small)
+        # replay exactly as a user would; if the minimised workload does not reproduce, keep the original one
+        if replay(path, quiet=True) != 1:
+            orig_hdr = trace_header("free", variant, ws, prop, prop, "threads=%d" % (2 + (ws % 3)))
+            write_trace(path, orig_hdr, lines)
         finish(prop, tier, base, stats, samples, miri_stats, cross_stats, t_start, 1)
         print("violation: %s: %s" % (hit["op"], hit["msg"]))
         print("VIOLATION property=%s replay=%s" % (prop, path))
@@ -658,7 +669,7 @@ def finish(prop, tier, base, stats, samples, miri_stats, cross_stats, t_start, n
 # ----------------------------------------------------------------------------------------------
 # replay
 
-def replay(path):
+def replay(path, quiet=False):
     hdr = {}
     for line in open(path):
         if line.startswith("#"):
@@ -681,13 +692,19 @@ def replay(path):
         bad = [dict(prop=prop, op=x[0], msg="%s gives %s, %s gives %s" % (hdr["against"], x[1], variant, y[1]))
                for x, y in zip(a, b) if x != y and not (x[0].startswith("WFloat") and "compact" in variant + hdr["against"])]
     else:
+        # engine M: the interpreter's seed, pre-emption rate and buffer mode are part of the file NAME
+        # (…-s<seed>-r<rate>-u<0|1>.trace), not of its contents, which are fed to the program verbatim
+        m = re.search(r"-s(\d+)-r([0-9.]+)-u([01])\.trace$", os.path.basename(path))
+        if not m:
+            die("engine-M replay file name must end in -s<miri seed>-r<rate>-u<0|1>.trace")
         miri_build(variant)
-        j, ub, _ = miri_run(variant, os.path.abspath(path), int(hdr.get("miri_seed", "0")), hdr.get("preemption_rate", "0.1"),
-                            hdr.get("uninit", "0") == "1")
+        j, ub, _ = miri_run(variant, os.path.abspath(path), int(m.group(1)), m.group(2), m.group(3) == "1")
         if ub:
             bad = [dict(prop=prop, op="(interpreter stopped the program)", msg=ub[:600])]
         else:
             bad = [v for v in j["violations"] if (prop is None or v["prop"] == prop) and not is_known(v, variant, known)]
+    if quiet:
+        return 1 if bad else 0
     for v in bad:
         print("violation: %s: %s" % (v["op"], v["msg"]))
     if bad:
